@@ -60,6 +60,16 @@ Next ==
                ELSE IF r.st = m
                     THEN Report("C09:redundant_noop", e.res = "ok") /\ tainted' = TRUE
                     ELSE Report(P \o ":update_accepted", e.res = "ok") /\ tainted' = tainted
+       \* histories that build a given framework: same judgement of the update, the families are recomputed at the next "sync" only
+       [] e.ev = "ub" ->
+            LET r == St!Step(m, OpOf(e)) IN
+            /\ m' = r.st /\ fams' = <<>> /\ UNCHANGED <<sem, certsem, wide>>
+            /\ IF r.res = "err"
+               THEN Report("C09:invalid_rejected", e.res = "err") /\ tainted' = TRUE
+               ELSE IF r.st = m
+                    THEN Report("C09:redundant_noop", e.res = "ok") /\ tainted' = TRUE
+                    ELSE Report(P \o ":update_accepted", e.res = "ok") /\ tainted' = tainted
+       [] e.ev = "sync" -> fams' = FamsOf(m, sem, certsem) /\ UNCHANGED <<m, tainted, sem, certsem, wide>>
        [] e.ev = "q" -> JudgeQ(e) /\ UNCHANGED <<m, fams, tainted, sem, certsem, wide>>
        [] e.ev = "usable" -> Report(P \o ":stays_usable", e.panic = "") /\ UNCHANGED <<m, fams, tainted, sem, certsem, wide>>
        [] OTHER -> UNCHANGED <<m, fams, tainted, sem, certsem, wide>>
